@@ -459,7 +459,8 @@ def main(argv=None):
     for u in unreproduced:
         problems.append(f"counterexample did not reproduce on the real code: {u['harness']} {u['config']} {u['label']} {u['inputs']} -> {str(u['replay'])[:300]}")
     for m in real_mismatch[:5]:
-        problems.append(f"replay mismatch (engine vs real code): {json.dumps(m)[:900]}")
+        rp = m.get("replay", {})
+        problems.append(f"replay mismatch (engine vs real code): pred={json.dumps(rp.get('obs_pred'))[:300]} got={json.dumps(rp.get('obs_got'))[:300]} failed={json.dumps(rp.get('failed'))[:200]} {json.dumps(m)[:700]}")
 
     viol_files = []
     seen_v = set()
